@@ -42,6 +42,7 @@ class Engine:
         self.modules = {}  # name -> dict(tree, real, funcs{name:FuncRef}, classes{name:SClass})
         self.solver = z3.Solver()
         self.solver.set("timeout", solver_timeout_ms)
+        self.solver_timeout_ms = solver_timeout_ms
         self.queries = 0
         self.solver_time = 0.0
         self.overrides = {}  # (module, qualname) -> callable(engine, *args, **kw)
@@ -53,6 +54,9 @@ class Engine:
         self.touched = set()  # qualified names of real functions interpreted
         self.fresh = 0
         self.stats_paths = 0
+        self.declared = {}  # name -> (term, bits): every symbolic int carries its declared range as a path assumption
+        self.ranges = {}  # Int mode: declaration name -> (lo, hi) used by the interval pre-filter of branch()
+        self.in_path = False
         # int subclass without own state: modelled as the integer itself
         self.class_models = {("py7zr.helpers", "ArchiveTimestamp"): lambda eng, x: x}
         for m in modules:
@@ -123,8 +127,10 @@ class Engine:
         while todo:
             prefix = todo.pop()
             self.decisions, self.cursor, self.pc, self.new_alts = list(prefix), 0, [], []
+            self.pc = [self.range_cond(v, b) for (v, b) in self.declared.values()]
             self.guards = []
             self.symdec = 0
+            self.in_path = True
             try:
                 res = harness(self)
                 results.append((list(self.decisions), list(self.pc), res, self.symdec))
@@ -172,6 +178,10 @@ class Engine:
             return False
         if self.guards:
             raise Unsupported("branch under merged guard")
+        if self.intmode == "int":
+            q = self.quick_decide(cond)
+            if q is not None:
+                return q
         if self.cursor < len(self.decisions):
             d = self.decisions[self.cursor]
             self.cursor += 1
@@ -179,7 +189,10 @@ class Engine:
             self.pc.append(cond if d else z3.Not(cond))
             return d
         rt, _ = self.check(cond)
-        rf, _ = self.check(z3.Not(cond))
+        if rt == z3.unsat:
+            rf = z3.sat  # the path so far is feasible, so the other side is
+        else:
+            rf, _ = self.check(z3.Not(cond))
         if str(rt) == "unknown" or str(rf) == "unknown":
             raise Inconclusive("solver unknown at a branch")
         if rt == z3.sat and rf == z3.sat:
@@ -197,14 +210,106 @@ class Engine:
         self.pc.append(cond if d else z3.Not(cond))
         return d
 
+    # ------------------------------------------------- interval pre-filter (Int mode)
+    def ival(self, t, depth=0):
+        """sound interval of an Int term from declared ranges (all of which are path assumptions); None = unknown"""
+        if not is_sym(t):
+            return (int(t), int(t))
+        if depth > 40:
+            return None
+        if z3.is_int_value(t):
+            v = t.as_long()
+            return (v, v)
+        k = t.decl().kind()
+        ch = t.children()
+        if k == z3.Z3_OP_UNINTERPRETED:
+            return self.ranges.get(t.decl().name())
+        if k == z3.Z3_OP_ADD:
+            lo = hi = 0
+            for c in ch:
+                r = self.ival(c, depth + 1)
+                if r is None:
+                    return None
+                lo, hi = lo + r[0], hi + r[1]
+            return (lo, hi)
+        if k == z3.Z3_OP_SUB and len(ch) == 2:
+            a, b = self.ival(ch[0], depth + 1), self.ival(ch[1], depth + 1)
+            return None if a is None or b is None else (a[0] - b[1], a[1] - b[0])
+        if k == z3.Z3_OP_UMINUS:
+            a = self.ival(ch[0], depth + 1)
+            return None if a is None else (-a[1], -a[0])
+        if k == z3.Z3_OP_MUL and len(ch) == 2:
+            a, b = self.ival(ch[0], depth + 1), self.ival(ch[1], depth + 1)
+            if a is None or b is None:
+                return None
+            ps = [a[0] * b[0], a[0] * b[1], a[1] * b[0], a[1] * b[1]]
+            return (min(ps), max(ps))
+        if k == z3.Z3_OP_MOD and z3.is_int_value(ch[1]) and ch[1].as_long() > 0:
+            a = self.ival(ch[0], depth + 1)
+            c = ch[1].as_long()
+            if a is not None and a[0] >= 0 and a[1] < c:
+                return a
+            return (0, c - 1)
+        if k in (z3.Z3_OP_IDIV, z3.Z3_OP_DIV) and z3.is_int_value(ch[1]) and ch[1].as_long() > 0:
+            a = self.ival(ch[0], depth + 1)
+            c = ch[1].as_long()
+            return None if a is None else (a[0] // c, a[1] // c)
+        if k == z3.Z3_OP_ITE:
+            a, b = self.ival(ch[1], depth + 1), self.ival(ch[2], depth + 1)
+            return None if a is None or b is None else (min(a[0], b[0]), max(a[1], b[1]))
+        return None
+
+    def quick_decide(self, cond):
+        k = cond.decl().kind()
+        ch = cond.children()
+        if k == z3.Z3_OP_NOT:
+            r = self.quick_decide(ch[0])
+            return None if r is None else (not r)
+        if k in (z3.Z3_OP_LE, z3.Z3_OP_LT, z3.Z3_OP_GE, z3.Z3_OP_GT, z3.Z3_OP_EQ, z3.Z3_OP_DISTINCT) and len(ch) == 2 \
+                and z3.is_int(ch[0]):
+            a, b = self.ival(ch[0]), self.ival(ch[1])
+            if a is None or b is None:
+                return None
+            if k == z3.Z3_OP_LE:
+                return True if a[1] <= b[0] else (False if a[0] > b[1] else None)
+            if k == z3.Z3_OP_LT:
+                return True if a[1] < b[0] else (False if a[0] >= b[1] else None)
+            if k == z3.Z3_OP_GE:
+                return True if a[0] >= b[1] else (False if a[1] < b[0] else None)
+            if k == z3.Z3_OP_GT:
+                return True if a[0] > b[1] else (False if a[1] <= b[0] else None)
+            if k == z3.Z3_OP_EQ:
+                return False if (a[1] < b[0] or b[1] < a[0]) else None
+            if k == z3.Z3_OP_DISTINCT:
+                return True if (a[1] < b[0] or b[1] < a[0]) else None
+        if k == z3.Z3_OP_OR:
+            rs = [self.quick_decide(c) for c in ch]
+            if any(r is True for r in rs):
+                return True
+            if all(r is False for r in rs):
+                return False
+        if k == z3.Z3_OP_AND:
+            rs = [self.quick_decide(c) for c in ch]
+            if any(r is False for r in rs):
+                return False
+            if all(r is True for r in rs):
+                return True
+        return None
+
     # ---------------------------------------------------------------- int domain
     def sym_int(self, name, bits=64, signed=False):
         """fresh symbolic integer with 0 <= x < 2**bits (added to the path condition by the caller via assume)"""
         if self.intmode == "bv":
             v = z3.BitVec(name, self.W)
             self.bounds[v.get_id()] = (v, (1 << bits) - 1)
-            return v
-        return z3.Int(name)
+        else:
+            v = z3.Int(name)
+            self.ranges[name] = (0, (1 << bits) - 1)
+        if name not in self.declared:
+            self.declared[name] = (v, bits)
+            if getattr(self, "pc", None) is not None and self.in_path:
+                self.pc.append(self.range_cond(v, bits))
+        return v
 
     def range_cond(self, v, bits):
         if self.intmode == "bv":
@@ -335,10 +440,25 @@ class Engine:
             sym, c = (a, b) if is_sym(a) else (b, a)
             if is_sym(c):
                 raise Unsupported("symbolic & symbolic in Int mode")
+            iv = self.ival(sym)
+            if iv is not None and iv[0] >= 0 and c >= 0:
+                if iv[1] < (c & -c if c else 1):
+                    return 0  # every set bit of the mask lies above the value
+                if (c + 1) & c == 0 and iv[1] <= c:
+                    return sym  # low-bit mask that covers the whole value
             if c >= 0 and (c + 1) & c == 0:
                 return sym % (c + 1)
             if c < 0 and (~c + 1) & ~c == 0:
                 return sym - sym % (~c + 1)
+            if 0 <= c < (1 << 16):
+                # bit-wise: sum of the selected bits (sound for non-negative sym; negative values are branched away)
+                if self.branch(sym < 0):
+                    raise Unsupported("& of a negative Int")
+                acc = 0
+                for k in range(c.bit_length()):
+                    if (c >> k) & 1:
+                        acc = acc + ((sym / (1 << k)) % 2) * (1 << k)
+                return acc
             raise Unsupported("& with mask %d" % c)
         if t is ast.FloorDiv and not is_sym(b) and b > 0:
             return a / b if is_sym(a) else a // b  # z3 Int '/' is floor division for positive divisors
